@@ -322,9 +322,13 @@ def run_case_in(d, root, text, config, timeout=PROC_TIMEOUT):
             return [{'what': 'HARNESS: the sequential reference run failed', 'exit': rrc, 'output_tail': _tail(rout, 1500)}]
         ref_log = collections.Counter(_read_log(os.path.join(d, 'ref.log')))
         # ---- after all workers have exited: check, read
-        (crc, cout), (drc, dout) = _run_group(
-            [(0, [PY, '-c', JUG_MAIN, 'check', 'jf.py'] + base),
-             (0, [PY, os.path.join(root, 'reader.py'), 'jf.py', spec])], d, dict(jug_env, E2E_LOG=os.path.join(d, 'reader.log')), timeout)
+        renv = dict(jug_env, E2E_LOG=os.path.join(d, 'reader.log'))
+        post = [(0, [PY, '-c', JUG_MAIN, 'check', 'jf.py'] + base), (0, [PY, os.path.join(root, 'reader.py'), 'jf.py', spec])]
+        if config['backend'] == 'dict':
+            # every process that opens dict_store:FILE rewrites FILE when it closes the store: one process at a time
+            (crc, cout), (drc, dout) = [_run_group([c], d, renv, timeout)[0] for c in post]
+        else:
+            (crc, cout), (drc, dout) = _run_group(post, d, renv, timeout)
         if crc != 0:
             problems.append({'what': 'end-to-end: `jug check` says not finished after every execute exited', 'exit': crc,
                              'output_tail': _tail(cout)})
